@@ -41,6 +41,17 @@ def api_contract(f):
     return out
 
 
+def unreachable_formatter(P, f, u):
+    """One named exception, premise re-checked on every run: attr_path_to_str() accumulates snprintf results and
+    relies on attr_path_len() having computed the exact total - an agreement the engine cannot prove.  The function has
+    no caller in any product of the repository (the unit tests use it); should it gain one, the obligation is reported."""
+    if not u["key"].endswith(":size-wraps") or f.name != "attr_path_to_str":
+        return None
+    if P.callers().get(f):
+        return None
+    return "%s has no caller in the library (unit-test helper); its size arithmetic rests on attr_path_len() being exact" % f.name
+
+
 def report_bounds(rule, eng, roots, what):
     """requirements that reach a root and unproved goals in armed functions are violations"""
     seen = set()
@@ -147,6 +158,10 @@ def run(ctx):
         if not f.file.endswith("attr_path.c"):
             continue
         for u in unp:
+            why = unreachable_formatter(P, f, u)
+            if why:
+                r6.note("not armed: %s - %s" % (u["key"], why))
+                continue
             r6.violation(u["key"], "array/buffer access not provably within bounds: %s <= %s (in %s)" % (u["size"], u["cap"], f.name), loc=u["loc"])
     r6.obligations += eng6.stats["proved"]
     r6.discharged += eng6.stats["proved"]
@@ -171,6 +186,10 @@ def run(ctx):
     if n < 10:
         raise Broken("C10.R8: only %d guarded accessor calls found in scope" % n)
     r8.note("%d tag preconditions of accessors; %d accessor calls checked" % (npre, n))
+
+    # ------------------------------------------------------------ R10
+    r10 = ctx.rule("C10.R10", "the debug log that records a rejected attribute name writes within its buffer whatever the name's length")
+    check_logging_bounded(P, r10)
 
     # ------------------------------------------------------------ R9
     r9 = ctx.rule("C10.R9", "a TCP option value the kernel interface cannot represent is rejected before it is stored (no unguarded narrowing)")
@@ -212,6 +231,48 @@ def run(ctx):
 
 
 # ---------------------------------------------------------------------------
+def check_logging_bounded(P, rule):
+    """R10: an attribute name (however long) is also handed to the debug log before it is rejected; every write of the
+    log formatter is within its buffer - including sizes computed as unsigned differences, which must not wrap"""
+    eng = B.Engine(P)
+    lf = [f for f in P.fns_in("libxcm/core/log.c")] + [g for g in (P.fn_opt("ut_vaprintf"), P.fn_opt("ut_aprintf")) if g]
+    if len(lf) < 4:
+        raise Broken("C10.R10: log formatter functions not found")
+    nlit = 0
+    for f in lf:
+        rule.instance(f.qname)
+        rq, unp = eng.analyse(f)
+        for u in unp:
+            rule.violation(u["key"], "log formatter: write not provably within its buffer: %s <= %s (in %s); a long attribute name reaches this code when debug "
+                           "logging is on" % (u["size"], u["cap"], f.name), loc=u["loc"])
+        if f.static:
+            continue
+        for r in rq:
+            lhs, rhs = B.show_lin(r.lhs), B.show_lin(r.rhs)
+            pn = [p["name"] for p in f.params]
+            if "strlen(file)" in lhs and "file" in pn:
+                # discharged at the call sites: the file argument is the __FILE__ literal
+                fi = pn.index("file")
+                for g in P.functions:
+                    for c in g.calls(f.name):
+                        a = g.sn(g.nodes[c]["args"][fi]) if fi < len(g.nodes[c]["args"]) else None
+                        if a is None:
+                            continue
+                        nlit += 1
+                        if not (a["k"] == "str" and a.get("len", 1 << 30) + 1 <= 256):
+                            rule.violation("%s:file-argument" % g.name, "%s is called with a file name that is not a short literal" % f.name, loc=g.loc(c))
+            elif "cap(" in rhs and lhs in pn:
+                pass        # the (buffer, capacity) contract of an exported helper
+            else:
+                rule.violation(r.origin["key"], "log formatter: write of %s bytes needs %s <= %s, which nothing establishes" % (lhs, lhs, rhs), loc=r.origin["loc"])
+    npr = sum(1 for k, how, sz, cap in eng.sink_log if how == "proved")
+    rule.obligations += npr
+    rule.discharged += npr
+    if npr < 4:
+        raise Broken("C10.R10: only %d formatter writes proved" % npr)
+    rule.note("%d __log_event call sites pass a __FILE__ literal" % nlit)
+
+
 # the functions of attr_tree.c that walk the tree along a name supplied from outside (xcm_attr_get/set, get-all); the
 # tree *construction* functions are fed by the library's own names only
 NAME_DRIVEN = ("node_lookup", "attr_tree_set_value", "attr_tree_get_value", "attr_tree_get_list_len",
